@@ -1,4 +1,33 @@
-"""C06 — a rejected edit leaves every IR object exactly as it was.  (see DECISIONS at the bottom)"""
+"""C06 — a rejected edit leaves every IR object exactly as it was.
+
+Shares the heap model (coq/theories/C01/Model.v), the tie and the generator with C01 (see harness/props/c01.py for
+the model, the tie and its measured coverage, the mutants and the findings).  oracle_c06 takes the canonical
+observation of every registered object (public accessors only) before each op and, when the op raises, compares it
+with the observation after.
+
+THEOREMS (coq/theories/C06/Property.v, closed under the global context):
+  C06_raise_frame_fixed_partial  forall ops op h' e in scope, step all_fixed (run all_fixed ops empty) op = (h', Raise e)
+                                 -> h' = run all_fixed ops empty          (the heap itself, hence obs_all)
+  C06_raise_frame_partial        the same for current_cfg along every `clean` history (rejected op included), stated on
+                                 obs_all = public observation + ref counters + name-authority state
+  proof shape: every op of the repaired model is `validate; mutate`; multi-element ops validate the whole argument list
+  first (forallb), so a failure at ANY position k returns the input heap; replace_all_uses_with(replace_graph_outputs)
+  is shown to be rejectable only at its first assignment (rau_ok); Value.name / initializers[k]=v need the invariant
+  of C01 (an initializer has a name, no producer, and is stored under that name) to exclude their internal raise points.
+  C06_<site>_refuted x9          vm_compute witnesses (raise + changed observation) at SIOExtend SIOInsert SIOSetItem
+                                 SInitSetItem SNameEmpty SGExtend SGInsert SGraphNew and replace_all_uses_with(rgo)
+PARTIAL, what is missing: `in_scope` excludes Graph(...) with arguments; GSort's cycle rejection, rename_values and the
+other convenience functions are outside the model (oracle-only stream; GSort atomicity belongs to C12).
+
+READING.  "every observable property of every reachable IR object" = the accessors of C01's observe_at list for every
+object the history ever created (a superset of the reachable ones), plus object counts.  Hidden state (ref counters,
+name-authority sets) is part of the model-side theorem only; a rejected call that corrupts only hidden state is still
+detected by the tie (hash of obs after later ops) and classified by the Coq-side `hit`.
+
+KNOWN FINDINGS: known_findings.d/C06.json (10 sites; 7 repaired by proposed_fixes/C01-*.diff, the Graph(...) constructor
+and the two non-transactional convenience functions are recorded without a patch).  Mutant M6 of c01.py is the C06
+mutant (caught with a concrete replay).  Unchanged tree: exit 0 for VERIF_SEED 0..3.
+"""
 
 from __future__ import annotations
 
@@ -8,6 +37,7 @@ from harness.props import _core_ops as C
 def run(ck) -> None:
     C.run_check(ck, "c06")
     ck.level = "proof"
+    ck.notes.append("C06_raise_frame proved as _partial: Graph(...) with arguments is outside in_scope")
 
 
 def replay(rp: dict) -> int:
